@@ -20,6 +20,9 @@ import CtyModel.Lemmas.HeapEscape
 import CtyModel.Lemmas.HeapPure
 import CtyModel.Lemmas.HeapInterleave
 import CtyModel.Lemmas.d20Conc
+import CtyModel.Lemmas.d20Strict
+import CtyModel.Lemmas.d20Pure
+import CtyModel.Lemmas.d20Marks
 namespace CtyModel
 namespace C20
 open Heap
@@ -227,6 +230,38 @@ theorem walk_copied_path_stays :
     goChanges (walkPre ++ [.api (.pathCopy 9), .api (.psAdd 4 10 0)]) 4 (.api (.walkNext 0)) = false := by
   decide
 
+
+/-! ## 2b. Histories in which every call applies
+
+`run` skips a step the model does not apply, so the theorems above also speak of
+histories padded with no-ops.  The histories the correspondence harness replays on
+the real code are STRICT: every step applies on both sides (a step the model skips
+prints `!`, which never equals what the real call printed). -/
+
+/-- **Fingerprints are stable — strict histories.**  `pre`, then `post`, every single
+step of both applying (`runStrict … = some _`), the whole respecting the documented
+ownership rules: every value that exists after `pre` reports exactly the same deep
+content after `post`.  No skipped step carries the statement. -/
+theorem fingerprints_stable_strict (pre post : List HeapOp) (st1 st2 : St)
+    (h1 : runStrict {} pre = some st1) (h2 : runStrict st1 post = some st2)
+    (hd : docRespectfulRun {} (pre ++ post) = true)
+    (w : Word) (hw : w ∈ st1.vals) (f : Nat) : fp f st2.mem w = fp f st1.mem w := by
+  have e1 := runStrict_run pre {} st1 h1
+  have e2 : run {} (pre ++ post) = st2 :=
+    runStrict_run (pre ++ post) {} st2 (by rw [runStrict_append, h1]; exact h2)
+  have := fingerprints_stable pre post hd w (by rw [e1]; exact hw) f
+  rwa [e1, e2] at this
+
+/-- a history is strict exactly when the model applies each of its steps -/
+theorem strict_iff_all_applied (st : St) (ops : List HeapOp) :
+    (runStrict st ops).isSome = true ↔ applied st ops = ops.length :=
+  runStrict_isSome_iff ops st
+
+/-- the hypotheses are satisfiable by non-trivial histories: the witnesses of the
+`_counterexample`s below are strict up to the offending mutation -/
+example : (runStrict {} walkPre).isSome = true ∧ (runStrict {} tupleElementTypesPre).isSome = true ∧
+    (runStrict {} pathSetListPre).isSome = true ∧ docRespectfulRun {} walkPre = true := by decide
+
 /-! ## 3. Accessors do not let internals escape -/
 
 /-- **Accessors return fresh objects.**  Whatever `AsBigFloat`, `AsValueSlice`,
@@ -410,6 +445,96 @@ theorem constructor_map_collision_counterexample :
   have := h [("\u00e9", .str "a"), ("e\u0301", .str "b")] [("e\u0301", .str "b"), ("\u00e9", .str "a")]
     (List.Perm.swap _ _ _) (.s "\u00e9")
   revert this
+  decide
+
+
+open Purity Value in
+/-- the full statement for the `Equals` loop with member comparisons that may fail:
+every visiting order gives the same outcome -/
+def EqualsLoopPure : Prop :=
+  ∀ σ σ' : List (Res EqAcc), σ.Perm σ' → eqLoop σ false = eqLoop σ' false
+
+open Purity Value in
+/-- **`Equals` on objects/maps when a member comparison does not return.**  `σ`, `σ'`
+two visiting orders.  (1) The loop never invents a failure: it reports `False`, or a
+failure one of the member comparisons produced, or all comparisons returned (then
+`pure_equals_object`).  (2) Without a known-unequal member, all orders agree on
+whether the call returns at all. -/
+theorem pure_equals_outcome_partial (σ σ' : List (Res EqAcc)) (hp : σ.Perm σ') :
+    (eqLoop σ false = .ok .f ∨ ((eqLoop σ false).isOk = false ∧ eqLoop σ false ∈ σ) ∨
+      ∀ r ∈ σ, r.isOk = true) ∧
+    (Res.ok EqAcc.f ∉ σ → (eqLoop σ false).isOk = (eqLoop σ' false).isOk) :=
+  ⟨eqLoop_result σ false, fun hf => eqLoop_perm_class hp hf false⟩
+
+open Purity Value in
+/-- **…and the side condition is necessary**: a known-unequal member and a member
+whose comparison panics give `False` or the panic depending on the visiting order.
+NOT a finding: no member comparison of well-formed mark-free values panics (only a
+capsule type whose user-supplied `Equals` panics does; replayed on the real code by
+`harness/c20_d1.go`, tag `pure:equals-capsule-panic-order`, it is the caller's own
+panic that surfaces or not). -/
+theorem equals_loop_pure_counterexample : ¬ EqualsLoopPure := by
+  intro h
+  have := h [.ok .f, .panic "x"] [.panic "x", .ok .f] (List.Perm.swap _ _ _)
+  revert this
+  decide
+
+open Purity in
+/-- **`MapVal` infers its element type independently of Go's map order.**  `σ`, `σ'`:
+the types of the caller's entries in two visiting orders; `eq` is `Type.Equals`, an
+equivalence (C07).  Both orders panic ("inconsistent map element types"), or both
+answer a type, and the two types are `Equals` (they may be different Go objects). -/
+theorem pure_mapval_element_type {T : Type} [DecidableEq T] (dyn : T) (eq : T → T → Bool)
+    (hrefl : ∀ a, eq a a = true) (hsymm : ∀ a b, eq a b = true → eq b a = true)
+    (htrans : ∀ a b c, eq a b = true → eq b c = true → eq a c = true)
+    (σ σ' : List T) (hp : σ.Perm σ') :
+    match mapValTy dyn eq σ dyn, mapValTy dyn eq σ' dyn with
+    | some a, some b => eq a b = true
+    | none, none => True
+    | _, _ => False :=
+  mapValTy_perm dyn eq hrefl hsymm htrans hp
+
+open Purity in
+/-- non-trivial instances: three entries `string, dyn, string` in two orders give
+`string`; `string, number` panics in both orders; and the loop of the heap model
+(`elemType`: first non-dynamic type in key order) is this loop -/
+example : mapValTy "dyn" (· == ·) ["string", "dyn", "string"] "dyn" = some "string" ∧
+    mapValTy "dyn" (· == ·) ["dyn", "string", "string"] "dyn" = some "string" ∧
+    mapValTy "dyn" (· == ·) ["string", "number"] "dyn" = none ∧
+    mapValTy "dyn" (· == ·) ["number", "string"] "dyn" = none ∧
+    mapValTy tDyn (· == ·) [tString, tDyn, tString] tDyn = some (elemType [tString, tDyn, tString]) := by
+  decide
+
+/-! ## 5b. Mark sets are heap objects of their own -/
+
+/-- **`WithMarks` and `Mark` build a new mark set.**  The marker of the value they
+return points at a mark set the call itself allocated, library-owned, at a fresh
+address — never at the `ValueMarks` map the caller passed (or, when there is no mark
+at all, the call returns the receiver as it is). -/
+theorem withMarks_builds_new_mark_set {st st' : St} {v g : Nat}
+    (h : step st (.api (.withMarks v g)) = some st') :
+    ∃ t p, st.val v = some (t, p) ∧
+      (st'.vals = st.vals ++ [.pair t p] ∧ st'.mem = st.mem ∨
+       ∃ l, st'.vals = st.vals ++ [.pair t (.marked st.mem.length (unwrap p))] ∧
+         st'.mem = st.mem ++ [⟨.lib, .markset l⟩]) :=
+  withMarks_markset h
+
+/-- `m := cty.NewValueMarks("p"); v := cty.StringVal("a").WithMarks(m)` -/
+def withMarksPre : List HeapOp := [.api (.stringVal "a"), .caller (.newMarks ["p"])]
+
+/-- **Regression witness for the seeded fast path** (`seeded/C20-withmarks-fast-path-
+retains-caller-map`: unmarked receiver, one set → the caller's map goes into the
+marker).  With it, `m["q"] = struct{}{}` — a respectful caller action: the map is the
+caller's — changes the value; with the current code (`stepApi`) it does not, and the
+mutation stays respectful. -/
+theorem withMarks_fast_path_counterexample :
+    let st := run {} withMarksPre
+    (let bad := (withMarksFast st 0 0).getD st
+     respectful bad (.caller (.marksAdd 0 "q")) = true ∧
+     fp 8 (run bad [.caller (.marksAdd 0 "q")]).mem bad.vals[1]! ≠ fp 8 bad.mem bad.vals[1]!) ∧
+    (let good := run st [.api (.withMarks 0 0)]
+     respectful good (.caller (.marksAdd 0 "q")) = true ∧
+     fp 8 (run good [.caller (.marksAdd 0 "q")]).mem good.vals[1]! = fp 8 good.mem good.vals[1]!) := by
   decide
 
 /-! ## 6. Sharing between goroutines -/
